@@ -15,14 +15,17 @@ try:
         if subprocess.run(['git', '-C', wt, 'apply', patch]).returncode != 0:
             res[id] = 'patch does not apply'; continue
         r = {}
+        e = dict(env, ARK_REPO=wt)
+        shutil.rmtree(out + '/reports', ignore_errors=True)
+        pr = subprocess.run(['/verif/bin/arkcheck', '-property', 'all', '-out', out], env=e, capture_output=True, text=True)
         for p in props:
-            e = dict(env, ARK_REPO=wt)
-            pr = subprocess.run(['/verif/bin/arkcheck', '-property', p, '-out', out], env=e, capture_output=True, text=True)
-            if pr.returncode == 1:
-                rep = json.load(open(f'{out}/reports/{p}.quick.json'))
-                r[p] = sorted({v['key'] for v in rep['violations']})
-            elif pr.returncode >= 2:
-                r[p] = ['UNDECIDED: ' + (pr.stdout.strip().split('\n')[0] if pr.stdout.strip() else '')]
+            fn = f'{out}/reports/{p}.quick.json'
+            if os.path.exists(fn):
+                rep = json.load(open(fn))
+                if rep['violations']:
+                    r[p] = sorted({v['key'] for v in rep['violations']})
+                elif rep.get('undecided'):
+                    r[p] = ['UNDECIDED']
         subprocess.run(['git', '-C', wt, 'checkout', '-q', '--', '.'])
         res[id] = r
         print(id, json.dumps(r), flush=True, file=sys.stderr)
